@@ -1,6 +1,7 @@
 package harness
 
 import (
+	"fmt"
 	"reflect"
 	"sort"
 	"time"
@@ -127,6 +128,26 @@ func genC11(g *Gen, tier string) *Program {
 			p.Tasks = append(p.Tasks, []Op{{K: "tag", S: 0, D: 1, Tags: tw[i]},
 				{K: "counter", S: 1, M: 1, Name: "c0"}, {K: "inc", M: 1, I: int64(1 + i)},
 				{K: "timer", S: 1, M: 2, Name: "t0"}, {K: "rec", M: 2, I: int64(5000 + i)}})
+		}
+	}
+	if g.Bool(15) {
+		// histograms created at the same time on different scopes of the tree with
+		// bucket sets that collide in the root's shared bucket cache: each must
+		// still show its own bounds in the snapshot
+		fam := collidingFamily(g)
+		for i := 0; i < 2; i++ {
+			spec := fam[i%len(fam)]
+			ops := []Op{{K: "sub", S: 0, D: 1, Name: pick(g, "qa", "qb") + fmt.Sprint(i)}, {K: "hist", S: 1, M: 1, Name: "hq", B: spec}}
+			if spec.Dur {
+				for _, d := range spec.Durs {
+					ops = append(ops, Op{K: "recd", M: 1, I: d})
+				}
+			} else {
+				for _, b := range spec.Bits {
+					ops = append(ops, Op{K: "recv", M: 1, F: b})
+				}
+			}
+			p.Tasks = append(p.Tasks, ops)
 		}
 	}
 	if g.Bool(60) {
